@@ -270,7 +270,10 @@ def _streams_case(ctx, rng, pstreams, flw, ds, shape, seq):
     if kind != "random" and rng.random() < 0.2:
         # stream cells by minimum Strahler order (the library's own order map; checked under C08)
         kind = "min_sto"
-        strord = flw.stream_order()
+        # the harness' own Strahler order defines the expected stream cells (an order map the object has cached
+        # may not be trusted: the call under test is what has to get it right)
+        from common import strahler_of
+        strord = np.array(strahler_of(ds), dtype=np.uint8).reshape(shape)
         min_sto = rng.randint(1, max(1, int(strord.max())))
         mask = [bool(x) for x in (strord.ravel() >= min_sto)] if min_sto > 1 else None
     closed = is_closed(ds, mask)
